@@ -61,7 +61,11 @@ def run(prop, tier, seed):
     for g in GROUPS.get(prop, []):
         if g['tier'] == 'thorough' and tier != 'thorough':
             continue
-        cmd = ['cargo', 'kani', '-j', '16', '--output-format', 'terse', '--harness', g['pattern']] + g['args']
+        args = list(g['args'])
+        if '-Z' not in args or 'unstable-options' not in args:
+            args += ['-Z', 'unstable-options']
+        args += ['--harness-timeout', os.environ.get('VERIF_KANI_HARNESS_TIMEOUT', '600s')]
+        cmd = ['cargo', 'kani', '-j', '16', '--output-format', 'terse', '--harness', g['pattern']] + args
         rc, so, se, wall = sh(cmd, timeout=int(os.environ.get('VERIF_KANI_TIMEOUT', '3000')), cwd=KDIR, env=env)
         out['cmds'].append('(cd kani && %s)' % ' '.join(cmd))
         text = so + '\n' + se
@@ -86,6 +90,9 @@ def run(prop, tier, seed):
                 out['n_proof'] += 1
                 if r == 'ok':
                     out['n_proof_ok'] += 1
+            if r != 'ok' and not fails.get(h):
+                out['infra'].append('kani harness %s did not complete (solver killed / crashed / out of resources): undecided' % h)
+                continue
             if r != 'ok':
                 out['failures'].append({'obligation': 'kani::' + h, 'origin': 'kani/src (real compiled crate)', 'kind': 'fn',
                                         'message': '; '.join(fails.get(h, []))[:600] or 'kani harness failed',
@@ -106,9 +113,11 @@ def playback(harness, args=()):
 
 # ---------------------------------------------------------------------------
 register('C16', 'c16::')
+register('C16', 'c02::')
 register('C02', 'c02::')
 register('C12', 'c12::', bounded='point lists of length 1..=4 (one harness per length), i8 components, no overflow assumed; unwinding assertions on')
 register('C17', 'c17::left_', args=['-Z', 'unstable-options', '--no-overflow-checks'])
+register('C17', 'c17p::', bounded='iter::Product / Sum of Matrix2, Quaternion, Basis3 over at most 3 elements of the 8-bit ring W8; unwinding assertions on')
 register('C17', 'c17::sums', bounded='iterators of at most 4 (Vector3<i32>) / 3 (Rad<f32>) elements; unwinding assertions on', args=['-Z', 'unstable-options', '--no-overflow-checks'])
 register('C19', 'c19::')
 register('C20', 'c20::')
